@@ -114,12 +114,12 @@ func (t *Timer) Stop() bool {
 	if vrt.Aborting() {
 		return false
 	}
-	vrt.Point("timer.stop", nil)
+	vrt.Point("timer.stop", nil, t)
 	return vrt.StopTimer(t.t)
 }
 
 func (t *Timer) Reset(d Duration) bool {
-	vrt.Point("timer.reset", nil)
+	vrt.Point("timer.reset", nil, t)
 	was := vrt.StopTimer(t.t)
 	t.arm(d)
 	return was
@@ -163,13 +163,13 @@ func (k *Ticker) Stop() {
 	if vrt.Aborting() {
 		return
 	}
-	vrt.Point("ticker.stop", nil)
+	vrt.Point("ticker.stop", nil, k)
 	k.stopped = true
 	vrt.StopTimer(k.t)
 }
 
 func (k *Ticker) Reset(d Duration) {
-	vrt.Point("ticker.reset", nil)
+	vrt.Point("ticker.reset", nil, k)
 	vrt.StopTimer(k.t)
 	k.d = d
 	k.stopped = false
